@@ -6,6 +6,7 @@ node straight from the Python AST. We build a CFG, check it, and return a
 """
 
 import ast
+import copy
 import sys
 from dataclasses import dataclass, replace
 from typing import TYPE_CHECKING, ClassVar, cast
@@ -219,7 +220,13 @@ def check_nested_func_def(
             func = ParsedFunctionDef(def_id, func_def.name, func_def, func_ty, None)
             DEF_STORE.register_def(func, None)
             ENGINE.parsed[def_id] = func
-            globals.f_locals[func_def.name] = GuppyDefinition(func)
+            # Bind the name in a scope that is private to the nested function instead of
+            # in `frame.f_locals`: that dict belongs to the user (for module-level
+            # functions it is the module namespace) and outlives this check
+            globals = copy.copy(globals)
+            globals.f_locals = globals.f_locals | {
+                func_def.name: GuppyDefinition(func)
+            }
         else:
             # Otherwise, we treat it like a local name
             inputs.append(Variable(func_def.name, func_def.ty, func_def))
